@@ -551,14 +551,15 @@ func c12Describe(v any) string {
 }
 
 type c12Scenario struct {
-	Seed      uint64 `json:"seed"`
-	Index     int    `json:"scenario"`
-	Pool      int    `json:"pool"`
-	Relay     int    `json:"relay_mode"`
-	Max       int    `json:"max_message_size"`
-	Senders   int    `json:"senders"`
-	Cache     bool   `json:"atom_cache"`
-	Important bool   `json:"important_supported"`
+	Seed      uint64   `json:"seed"`
+	Index     int      `json:"scenario"`
+	Pool      int      `json:"pool"`
+	Relay     int      `json:"relay_mode"`
+	Max       int      `json:"max_message_size"`
+	Senders   int      `json:"senders"`
+	Cache     bool     `json:"atom_cache"`
+	Important bool     `json:"important_supported"`
+	Delays    bool     `json:"per_link_delays"`
 	Msgs      []string `json:"messages"`
 }
 
@@ -602,8 +603,8 @@ func c12Directed(c *Ctx) {
 		for _, m := range msgs {
 			m.sendErr = c12Send(p.A.conn, m)
 		}
-		p.waitRoutes(p.B.core, int64(len(msgs)), 400*time.Millisecond, 20*time.Second)
-		p.waitRoutes(p.A.core, int64(len(msgs)), 400*time.Millisecond, 20*time.Second)
+		p.waitRoutes(p.B.core, int64(len(msgs)), 1500*time.Millisecond, 20*time.Second)
+		p.waitRoutes(p.A.core, int64(len(msgs)), 1500*time.Millisecond, 20*time.Second)
 		time.Sleep(2 * time.Millisecond)
 		c12CheckScenario(c, sc, o, p, msgs)
 		p.Close()
@@ -617,9 +618,9 @@ func c12Directed(c *Ctx) {
 func c12RequestRace(c *Ctx) {
 	r := c.R
 	from := gen.PID{Node: "a@w5", ID: 31337, Creation: 1001}
-	to := gen.PID{Node: "b@w5", ID: 6, Creation: 2002} // remote result: ErrProcessTerminated
+	to := gen.PID{Node: "b@w5", ID: 6, Creation: 2002}                    // remote result: ErrProcessTerminated
 	al := gen.Alias{Node: "b@w5", ID: [3]uint64{5, 1, 2}, Creation: 2002} // ErrProcessMailboxFull
-	pn := gen.ProcessID{Node: "b@w5", Name: "abcd"}                        // name of length 4: ErrProcessUnknown
+	pn := gen.ProcessID{Node: "b@w5", Name: "abcd"}                       // name of length 4: ErrProcessUnknown
 	ev := gen.Event{Node: "b@w5", Name: "evnt"}
 	type req struct {
 		name string
@@ -731,6 +732,9 @@ func c12Scenario1(c *Ctx, si int) {
 		o.MaxAtoB = 100 + rng.Intn(300)
 		o.MaxBrecv = o.MaxAtoB
 	}
+	if o.Pool > 1 && rng.Chance(1, 2) {
+		o.LinkDelays = true
+	}
 	if rng.Chance(1, 8) {
 		o.ImportantB = false // the receiver does not acknowledge
 	}
@@ -746,7 +750,11 @@ func c12Scenario1(c *Ctx, si int) {
 	}
 	nmsg := 20 + rng.Intn(41)
 	senders := 1 + rng.Intn(6)
-	sc := c12Scenario{Seed: c.Seed, Index: si, Pool: o.Pool, Relay: o.RelayMode, Max: o.MaxAtoB, Senders: senders, Cache: o.AtomCache != nil, Important: o.ImportantA && o.ImportantB}
+	sc := c12Scenario{Seed: c.Seed, Index: si, Pool: o.Pool, Relay: o.RelayMode, Max: o.MaxAtoB, Senders: senders, Cache: o.AtomCache != nil, Important: o.ImportantA && o.ImportantB, Delays: o.LinkDelays}
+	if o.LinkDelays {
+		r.Count("E:scenario:link-delays")
+	}
+	r.Count(fmt.Sprintf("E:scenario:pool=%d", o.Pool))
 	p, err := w5NewPair(rng, o)
 	if err != nil {
 		r.Disagree("c12-pair", err.Error(), sc)
@@ -854,8 +862,8 @@ func c12Scenario1(c *Ctx, si int) {
 			}
 		}
 	}
-	okB := p.waitRoutes(p.B.core, int64(expect), 400*time.Millisecond, 20*time.Second)
-	okA := p.waitRoutes(p.A.core, int64(expectAck), 400*time.Millisecond, 20*time.Second)
+	okB := p.waitRoutes(p.B.core, int64(expect), 1500*time.Millisecond, 20*time.Second)
+	okA := p.waitRoutes(p.A.core, int64(expectAck), 1500*time.Millisecond, 20*time.Second)
 	if !okB {
 		r.Count("E:wait-routes-incomplete")
 	}
